@@ -36,8 +36,9 @@ SOFTWARE, EVEN IF ADVISED OF THE POSSIBILITY OF SUCH DAMAGE.
 
 #define MODULE_NAME string
 
-bool string_to_int(char* s, int base, int64_t* result)
+bool string_to_int(SIZED_STRING* ss, int base, int64_t* result)
 {
+  char* s = ss->c_string;
   char* endp = s;
 
   errno = 0;
@@ -51,8 +52,9 @@ bool string_to_int(char* s, int base, int64_t* result)
     // No digits were found.
     return false;
   }
-  if (*endp != '\0') {
-    // Parsing did not reach the end of the string.
+  if (endp != s + ss->length) {
+    // Parsing did not reach the end of the string. The string can contain
+    // null characters, its end is given by its length.
     return false;
   }
 
@@ -61,7 +63,7 @@ bool string_to_int(char* s, int base, int64_t* result)
 
 define_function(to_int)
 {
-  char* s = string_argument(1);
+  SIZED_STRING* s = sized_string_argument(1);
   int64_t result = 0;
 
   if (string_to_int(s, 0, &result)) {
@@ -73,7 +75,7 @@ define_function(to_int)
 
 define_function(to_int_base)
 {
-  char* s = string_argument(1);
+  SIZED_STRING* s = sized_string_argument(1);
   int64_t base = integer_argument(2);
   int64_t result = 0;
 
